@@ -35,7 +35,8 @@ def run(ctx):
     ctx.rule("R-CHK", "every success path passes a checked call to the sink (interprocedural, incl. loop form)")
     ctx.rule("R-GRD", "success requires the guard literal (graph cut on its true edges)")
     ctx.rule("R-FLOW", "operand provenance (backward slice) is the required source")
-    ctx.rule("R-REG", "outcome regions by interval abstract interpretation equal the spec table")
+    ctx.rule("R-WHO", "call sites are exactly the confirmed ones")
+    ctx.rule("R-REG", "outcome regions by abstract interpretation / truth tables equal the spec table")
 
     # ---- C02.a skeleton ------------------------------------------------------
     def sink_validate_ee(c):
